@@ -201,6 +201,23 @@ def allSome {α} : List (Option α) → Option (List α)
 def tableTexts (t : Table) : Option (List (List Bytes)) :=
   allSome (t.map fun row => allSome (row.map cellText))
 
+/-! ### the file system under COPY: a path either does not exist or holds bytes -/
+
+abbrev Fs := String → Option Bytes
+
+/-- `File::create(path)` + write + flush: the path's content is REPLACED (truncated), whatever it
+held before; every other path is untouched -/
+def Fs.put (fs : Fs) (path : String) (bytes : Bytes) : Fs :=
+  fun p => if p = path then some bytes else fs p
+
+/-- `COPY <records> TO path` -/
+def copyToFs (fs : Fs) (path : String) (o : Opts) (names : List Bytes) (rows : List (List Bytes)) : Fs :=
+  fs.put path (writeFile o names rows)
+
+/-- `COPY … FROM path` at the csv::Reader level (`none` = the file does not exist or an error) -/
+def copyFromFs (fs : Fs) (path : String) (o : Opts) : Option (List (List Bytes)) :=
+  (fs path).bind (readCsv o)
+
 def exportTable (o : Opts) (names : List Bytes) (t : Table) : Option Bytes :=
   (tableTexts t).map (writeFile o names)
 
